@@ -836,6 +836,9 @@ impl<'a, 'tcx> Cx<'a, 'tcx> {
                     ),
                     ("t", J::s(ty_s(ty))),
                 ];
+                if let Some(sdid) = c.check_static_ptr(self.tcx) {
+                    fields.push(("static", J::s(path_of(self.tcx, sdid))));
+                }
                 match ty.kind() {
                     ty::Bool | ty::Int(_) | ty::Uint(_) | ty::Char => {
                         if let Some(si) = c.const_.try_eval_scalar_int(self.tcx, self.te) {
